@@ -106,10 +106,24 @@ CLASSES = {
         "module": "Upd", "bases": ["ABC"], "frame": ("param", "streams"), "self_ro": None,
         "methods": ["update_seeds"], "abstract": ["update_seed"], "must_not_define": ["__init__"],
     },
+    # frame "wself": the store of stream objects (objects are indices of it) and the attributes of self
+    "StreamInformation": {
+        "module": "Inf", "bases": [], "frame": ("wself", "istate", "mkI", [("_streams", "i_streams", "Info")], []),
+        "self_ro": None, "super": None,
+        "methods": ["__init__", "add_stream", "get_stream"], "abstract": [], "must_not_define": [],
+    },
+    "StreamSeedInformation": {
+        "module": "Inf", "bases": ["StreamInformation"],
+        "frame": ("wself", "sistate", "mkSIS", [("_seeds", "sis_seeds", "Tbl")], []),
+        "self_ro": None, "super": ("StreamInformation", "sis_base"),
+        "methods": ["__init__"], "abstract": [], "must_not_define": ["add_stream", "get_stream", "get_streams"],
+    },
 }
-MODULES = {"MT": "Stream", "Upd": "Seeds"}
+MODULES = {"MT": "Stream", "Upd": "Seeds", "Inf": "Stream Info"}
+MODULE_ORDER = ("MT", "Upd", "Inf")
 EXN = {"MT": {"TypeError": "ETypeError", "OverflowError": "EOverflow"},
-       "Upd": {"TypeError": "ETypeError", "ValueError": "EValueError", "KeyError": "EKeyError"}}
+       "Upd": {"TypeError": "ETypeError", "ValueError": "EValueError", "KeyError": "EKeyError"},
+       "Inf": {"TypeError": "ITypeError", "KeyError": "IKeyError"}}
 
 # the model's value universe of every parameter, in order
 PARAMS = {
@@ -124,13 +138,21 @@ PARAMS = {
     ("StreamSeedUpdater", "update_seed"): [("stream_id", "Key"), ("stream", "Stream"), ("replication_nr", "Repl")],
     ("StreamUpdater", "update_seed"): [("key", "Key"), ("stream", "Stream"), ("replication_nr", "Repl")],
     ("StreamUpdater", "update_seeds"): [("streams", "Dict"), ("replication_nr", "Repl")],
+    ("StreamInformation", "__init__"): [("default_stream", "ObjArg")],
+    ("StreamInformation", "add_stream"): [("stream_id", "Key"), ("stream", "ObjArg")],
+    ("StreamInformation", "get_stream"): [("stream_id", "Key")],
+    ("StreamSeedInformation", "__init__"): [("default_stream", "ObjArg")],
 }
+# a parameter default is evaluated ONCE, at definition time: only the immutable `None` is modelled
+DEFAULT_NONE = {"SeedArg": "SeedNone", "ObjArg": "SNone"}
 GTYPE = {"Z": "Z", "B": "bool", "F": "Z", "G": "gstate", "GS": "gstate", "None": "unit",
          "SeedArg": "pyseed", "Bound": "pybound", "StateArg": "pystate",
-         "Key": "pykey", "Stream": "pystream", "Repl": "repl", "Dict": "list entry"}
+         "Key": "pykey", "Stream": "pystream", "Repl": "repl", "Dict": "list entry",
+         "ObjArg": "sarg", "Info": "info", "Ref": "nat", "Tbl": "list (name * list Z)"}
 # isinstance(p, T) on the universes
 ISINSTANCE = {("SeedArg", "int"): "py_seed_is_int", ("Key", "str"): "py_key_is_str",
-              ("Stream", "StreamInterface"): "py_stream_is_stream", ("Repl", "int"): "py_repl_is_int"}
+              ("Stream", "StreamInterface"): "py_stream_is_stream", ("Repl", "int"): "py_repl_is_int",
+              ("ObjArg", "StreamInterface"): "py_obj_is_stream"}
 BUILTINS_USED = ("isinstance", "int", "str", "len", "ord", "round", "float", "bool", "super", "abstractmethod")
 
 PRELUDE = {
@@ -219,6 +241,29 @@ Fixpoint py_for_entries (body : entry -> entry * pyret unit) (l : list entry) : 
 }
 
 
+PRELUDE["Inf"] = r"""
+(* ---- fixed prelude: Python values on the universe of Streams/Info.v; objects are indices of the store ---- *)
+Inductive pyret (A : Type) : Type := Ret (v : A) | Exc (e : iexn).
+Arguments Ret {A} v.
+Arguments Exc {A} e.
+
+Definition pykey := karg.
+Definition py_key_is_str (k : pykey) : bool := match k with KStr _ => true | KOther => false end.
+Definition py_key_name (k : pykey) : name := match k with KStr n => n | KOther => [] end.
+(* a stream argument: None, a StreamInterface object (its index in the store), anything else *)
+Definition py_obj_is_none (a : sarg) : bool := match a with SNone => true | _ => false end.
+Definition py_obj_is_stream (a : sarg) : bool := match a with SObj _ => true | _ => false end.
+Definition py_obj_ref (a : sarg) : nat := match a with SObj i => i | _ => O end.
+(* a new object: appended to the store, known by its index *)
+Definition py_alloc (w : list stream) (o : stream) : list stream * nat := (w ++ [o], length w).
+(* an exception out of a MersenneTwister method, seen from here *)
+Definition py_exn_of_mt (e : Stream.exn) : iexn := match e with Stream.ETypeError => ITypeError | _ => IOther end.
+(* the attributes of the two classes *)
+Record istate := mkI { i_streams : info }.
+Record sistate := mkSIS { sis_base : istate; sis_seeds : list (name * list Z) }.
+"""
+
+
 class Unsupported(Exception):
     def __init__(self, node, what):
         self.lineno = getattr(node, "lineno", 0) or 0
@@ -258,11 +303,14 @@ class Env:
         self.dirty = False
         self.memo = {}            # (dict text, key text) -> list variable known to be the value
         self.entry = None         # inside a loop over a dict: (loop variable, entry variable, current entry text, dict name)
+        self.store = "w"          # frame "wself": the current version of the store of objects
+        self.sup = None           # frame "wself" of a subclass: the inherited part of self
 
     def clone(self):
         e = Env()
         e.fields, e.ro, e.locals = dict(self.fields), dict(self.ro), dict(self.locals)
         e.facts, e.base, e.dirty, e.memo, e.entry = self.facts, self.base, self.dirty, dict(self.memo), self.entry
+        e.store, e.sup = self.store, self.sup
         return e
 
     def plus(self, facts):
@@ -309,7 +357,7 @@ class Translator:
             self.tree = ast.parse(text)
         self.lines = text.split("\n")
         self.classes = {}
-        self.defs = {"MT": [], "Upd": []}
+        self.defs = {m: [] for m in MODULE_ORDER}
         self.sigs = {}
         self.stack = []
         self.ctx = None
@@ -457,12 +505,15 @@ class Translator:
         if got != [p for p, _ in declared]:
             self.fail(f, f"{cname}.{mname} has parameters {got}, the model assumes {[p for p, _ in declared]}")
         ndef = len(a.defaults)
+        defaults = []
         for i, (pn, ty) in enumerate(declared):
             di = i - (len(declared) - ndef)
             if di >= 0:
                 d = a.defaults[di]
-                if not (ty == "SeedArg" and isinstance(d, ast.Constant) and d.value is None):
-                    self.fail(d, f"default value of `{pn}` (only `seed=None` of __init__ is modelled)")
+                if not (ty in DEFAULT_NONE and isinstance(d, ast.Constant) and d.value is None):
+                    self.fail(d, f"default value `{ast.unparse(d)[:40]}` of `{pn}`: a default is evaluated once, at definition time -- an "
+                                 "object built there is shared by every call that omits the argument; only `None` is modelled")
+                defaults.append((pn, ty, DEFAULT_NONE[ty]))
         for n in ast.walk(f):
             if isinstance(n, (ast.FunctionDef, ast.AsyncFunctionDef, ast.Lambda, ast.ClassDef)) and n is not f:
                 self.fail(n, "nested function / class / lambda")
@@ -476,9 +527,11 @@ class Translator:
         try:
             env = Env()
             frame = spec["frame"]
-            if frame[0] == "self":
+            if frame[0] in ("self", "wself"):
                 for attr, proj, ty in frame[3]:
                     env.fields[attr] = V(ty, f"({proj} s)")
+            if frame[0] == "wself" and spec.get("super"):
+                env.sup = f"({spec['super'][1]} s)"
             if spec["self_ro"]:
                 for attr, proj, ty in spec["self_ro"][1]:
                     env.ro[attr] = V(ty, f"({proj} s)")
@@ -493,22 +546,31 @@ class Translator:
                 self.fail(f, f"{cname}.{mname} returns values of different kinds {sorted(kinds)}")
             rkind = next(iter(kinds))
             name = f"gen_{cname}_{mname}"
-            ftype = frame[1] if frame[0] == "self" else GTYPE[dict(declared)[frame[1]]]
+            ftype = frame[1] if frame[0] == "self" else (f"(list stream * {frame[1]})" if frame[0] == "wself"
+                                                         else GTYPE[dict(declared)[frame[1]]])
             bl = [f"({b} : {t})" for b, t in ctx.binders]
             if frame[0] == "self":
                 bl.append(f"(s : {frame[1]})")
+            elif frame[0] == "wself":
+                bl.append(f"(w : list stream) (s : {frame[1]})")
             elif spec["self_ro"]:
                 bl.append(f"(s : {spec['self_ro'][0]})")
             bl += [f"(p_{ident(pn)} : {GTYPE[ty]})" for pn, ty in declared]
             binders = " ".join(bl)
             rty = f"{ftype} * pyret {GTYPE[rkind]}"
             header = f"(* {cname}.{mname}  -- streams.py lines {f.lineno}-{f.end_lineno}; result kind {rkind} *)"
+            for pn, ty, val in defaults:
+                self.defs[spec["module"]].append(
+                    f"(* {cname}.{mname}: the default of `{pn}`, evaluated at definition time  -- streams.py line {f.lineno} *)\n"
+                    f"Definition {name}__default_{ident(pn)} : {GTYPE[ty]} := {val}.")
             self.defs[spec["module"]].append(f"{header}\nDefinition {name} {binders.strip()} : {rty} :=\n{ind(text)}.")
-            sig = {"name": name, "params": declared, "binders": list(ctx.binders), "ret": rkind, "cls": cname}
+            sig = {"name": name, "params": declared, "binders": list(ctx.binders), "ret": rkind, "cls": cname,
+                   "module": spec["module"], "defaults": [f"{name}__default_{ident(pn)}" for pn, _t, _v in defaults]}
             self.sigs[key] = sig
             src_lines = self.lines[f.lineno - 1:f.end_lineno]
             self.translated.append({"class": cname, "method": mname, "definition": name, "module": spec["module"],
                                     "lines": [f.lineno, f.end_lineno], "result_kind": rkind,
+                                    "defaults": {pn: val for pn, _t, val in defaults},
                                     "sha1": hashlib.sha1("\n".join(src_lines).encode("utf-8")).hexdigest()})
             return sig
         finally:
@@ -523,9 +585,12 @@ class Translator:
         if frame[0] == "param":
             return env.locals[frame[1]].tx
         if not env.dirty:
-            return env.base
-        parts = [env.fields[a].tx for a, _p, _t in frame[3]] + [f"({x} {env.base})" for x in frame[4]]
-        return "(" + frame[2] + " " + " ".join(parts) + ")"
+            me = env.base
+        else:
+            parts = ([env.sup] if CLASSES[self.ctx.cls].get("super") else []) + \
+                [env.fields[a].tx for a, _p, _t in frame[3]] + [f"({x} {env.base})" for x in frame[4]]
+            me = "(" + frame[2] + " " + " ".join(parts) + ")"
+        return f"({env.store}, {me})" if frame[0] == "wself" else me
 
     def raise_(self, node, env, kind):
         """kind: a constructor of the module's exn or a bound Gallina variable"""
@@ -539,7 +604,7 @@ class Translator:
         if v.ty == "None":
             self.ctx.ret.add("None")
             return f"({self.frame_term(env)}, Ret tt)"
-        if v.ty in ("Z", "F", "B", "GS"):
+        if v.ty in ("Z", "F", "B", "GS", "Ref"):
             self.ctx.ret.add(v.ty)
             return f"({self.frame_term(env)}, Ret {self.text(v)})"
         self.fail(node, f"return of a value of kind {v.ty}")
@@ -576,6 +641,8 @@ class Translator:
         if isinstance(s, ast.Assign):
             if len(s.targets) != 1:
                 self.fail(s, "multiple assignment targets")
+            if isinstance(s.targets[0], ast.Subscript):
+                return self.expr(s.value, env, lambda v, e2: self.store_item(s, s.targets[0], v, e2, k))
             return self.expr(s.value, env, lambda v, e2: self.assign(s, s.targets[0], v, e2, k))
         if isinstance(s, ast.AnnAssign):
             if s.value is None:
@@ -606,6 +673,37 @@ class Translator:
                 return self.expr(s.value, env, lambda v, e2: k(e2))
             self.fail(s, f"expression statement {type(s.value).__name__}")
         self.fail(s, f"statement {type(s).__name__}")
+
+    def store_item(self, node, target, v, env, k):
+        """self._d[key] = value  for a dict attribute of the model state (name -> object)"""
+        t = target.value
+        if not (isinstance(t, ast.Attribute) and isinstance(t.value, ast.Name) and t.value.id == "self" and "self" not in env.locals
+                and t.attr in env.fields and env.fields[t.attr].ty == "Info"):
+            self.fail(node, f"item assignment to `{ast.unparse(target.value)[:40]}` (only a dict attribute name -> stream of self)")
+        if isinstance(target.slice, (ast.Slice, ast.Tuple)):
+            self.fail(node, "slice / tuple subscript")
+        if self.ctx.loop:
+            self.fail(node, "item assignment inside a loop body")
+        ref = self.as_ref(node, v, env)
+
+        def with_key(key, e2):
+            nm = self.as_name(node, key, e2)
+            d = e2.fields[t.attr]
+            nv = self.ctx.fresh("f" + t.attr)
+            e3 = e2.clone()
+            e3.fields[t.attr] = V("Info", nv)
+            e3.dirty = True
+            return f"let {nv} := info_set {d.tx} {nm.tx} {ref.tx} in\n{k(e3)}"
+        return self.expr(target.slice, env, with_key)
+
+    def as_ref(self, node, v, env):
+        if v.ty == "Ref":
+            return v
+        if v.ty == "ObjArg":
+            if (v.tx, "inst") in env.facts:
+                return V("Ref", f"(py_obj_ref {v.tx})")
+            self.fail(node, f"parameter {v.tx[2:]} used as a stream object without an isinstance guard in front")
+        self.fail(node, f"value of kind {v.ty} stored where a stream object is expected")
 
     def exc_name(self, s):
         e = s.exc
@@ -638,16 +736,18 @@ class Translator:
             if self.ctx.loop:
                 self.fail(node, "assignment to an attribute of self inside a loop body")
             frame = CLASSES[self.ctx.cls]["frame"]
-            ft = {a: t for a, _p, t in frame[3]}.get(target.attr) if frame[0] == "self" else None
+            ft = {a: t for a, _p, t in frame[3]}.get(target.attr) if frame[0] in ("self", "wself") else None
             if ft is None:
                 self.fail(node, f"assignment to attribute self.{target.attr}, which the model state does not have (or only reads)")
             if ft == "Z":
                 v = self.as_int(node, v, env)
+            if ft in ("Info", "Tbl") and v.ty == "EmptyDict":
+                v = V(ft, "[]")
             if v.ty != ft:
                 self.fail(node, f"value of kind {v.ty} stored in self.{target.attr} (kind {ft})")
             e2 = env.clone()
             e2.dirty = True
-            if v.const is None and v.tx.isidentifier():
+            if v.const is None and (v.tx.isidentifier() or v.tx == "[]"):
                 e2.fields[target.attr] = v
                 return k(e2)
             nm = self.ctx.fresh("f" + target.attr)
@@ -850,6 +950,8 @@ class Translator:
                 return k(V("B", const=c), env)
             if isinstance(c, int):
                 return k(V("Z", const=c), env)
+            if isinstance(c, str):
+                return k(V("Str", "[" + "; ".join(str(ord(ch)) for ch in c) + "]" if c else "(@nil Z)"), env)
             if isinstance(c, float):
                 if c != c or c in (float("inf"), float("-inf")):
                     self.fail(e, f"float literal {c!r}")
@@ -893,6 +995,10 @@ class Translator:
         if isinstance(e, ast.Compare) or (isinstance(e, ast.Call) and isinstance(e.func, ast.Name)
                                           and e.func.id == "isinstance" and "isinstance" not in env.locals):
             return self.bool_value(e, env, lambda v, ft, ff, e2: k(v, e2))
+        if isinstance(e, ast.Dict):
+            if e.keys:
+                self.fail(e, "dict literal that is not empty")
+            return k(V("EmptyDict"), env)
         if isinstance(e, ast.Subscript):
             return self.subscript(e, env, k)
         if isinstance(e, ast.Call):
@@ -1022,6 +1128,8 @@ class Translator:
             return out(V("B", const=True), set(), set())
         if a.ty == "SeedArg":
             return out(V("B", f"(py_seed_is_none {a.tx})"), set(), set())
+        if a.ty == "ObjArg":
+            return out(V("B", f"(py_obj_is_none {a.tx})"), set(), set())
         if a.ty == "OptL":
             return out(V("B", f"(match {a.tx} with None => true | Some _ => false end)", extra=("optl", a, False)), set(), set())
         if a.ty in ("Z", "F", "B", "Str", "L", "G", "GS"):
@@ -1119,6 +1227,13 @@ class Translator:
                         self.fail(e, "dict subscript (the model has no KeyError)")
                     return (f"match lookup {d.tx} {nm.tx} with\n| None => {self.raise_(e, e2, table['KeyError'])}\n"
                             f"| Some {lv} =>\n{ind(k(V('L', lv), e3))}\nend")
+                if d.ty == "Info":
+                    nm = self.as_name(e, key, e2)
+                    self.effect(e, "dict subscript")
+                    iv = self.ctx.fresh("i")
+                    table = EXN[self.ctx.module]
+                    return (f"match info_get {d.tx} {nm.tx} with\n| None => {self.raise_(e, e2, table['KeyError'])}\n"
+                            f"| Some {iv} =>\n{ind(k(V('Ref', iv), e2))}\nend")
                 if d.ty == "L":
                     i = self.as_int(e, key, e2)
                     if i.const is not None:
@@ -1153,13 +1268,95 @@ class Translator:
         # self.m(..)
         if isinstance(recv, ast.Name) and recv.id == "self" and "self" not in env.locals:
             return self.self_call(e, f.attr, env, k)
+        # super().__init__(..)
+        if isinstance(recv, ast.Call) and isinstance(recv.func, ast.Name) and recv.func.id == "super" and "super" not in env.locals \
+                and not recv.args and not recv.keywords and f.attr == "__init__":
+            return self.super_init(e, env, k)
         # methods of objects: evaluate the receiver
         if isinstance(recv, ast.Name) and recv.id in env.locals and env.locals[recv.id].ty == "Dict" and f.attr == "keys":
             self.fail(e, "dict.keys() outside `for k in d.keys()`")
         return self.expr(recv, env, lambda r, e1: self.exprs(e.args, e1, lambda args, e2: self.method_call(e, recv, r, f.attr, args, e2, k)))
 
+    def construct(self, e, cname, env, k):
+        """C(args) for a translated class whose state is a record: a blank object goes through the generated
+        __init__ and is appended to the store; the value is its index"""
+        if CLASSES[self.ctx.cls]["frame"][0] != "wself":
+            self.fail(e, f"{cname}(..) where the model has no store of objects")
+        if cname not in self.classes or CLASSES[cname]["frame"][0] != "self":
+            self.fail(e, f"constructor call {cname}(..)")
+        if self.ctx.loop:
+            self.fail(e, "constructor call inside a loop body")
+        self.effect(e, "constructor call")
+        sig = self.method(cname, "__init__", e)
+        mod = sig["module"]
+        if len(e.args) > len(sig["params"]):
+            self.fail(e, f"{cname}() called with {len(e.args)} arguments")
+
+        def with_args(args, e2):
+            argtx = []
+            for i, (pn, ty) in enumerate(sig["params"]):
+                if i >= len(args):
+                    if i - (len(sig["params"]) - len(sig["defaults"])) < 0:
+                        self.fail(e, f"{cname}() called without a value for `{pn}`")
+                    argtx.append(f"{mod}.{sig['defaults'][i - (len(sig['params']) - len(sig['defaults']))]}")
+                elif ty == "SeedArg" and args[i].ty == "Z":
+                    argtx.append(f"({mod}.SeedInt {self.text(args[i])})")
+                elif ty == "SeedArg" and args[i].ty == "None":
+                    argtx.append(f"{mod}.SeedNone")
+                else:
+                    self.fail(e, f"argument of kind {args[i].ty} passed for the parameter `{pn}` of {cname}()")
+            bs = []
+            for b, t in sig["binders"]:
+                if b == "raw":
+                    self.ctx.need("raw", t)
+                    bs.append("raw")
+                else:
+                    bs.append(self.ctx.env_binder(e, b.rsplit("_", 1)[0], t))
+            g = self.ctx.env_binder(e, "env_blank", "gstate")
+            o, r1, kk, w1, iv = (self.ctx.fresh(x) for x in ("o", "r", "k", "w", "i"))
+            e3 = e2.clone()
+            e3.store = w1
+            callt = " ".join([f"{mod}.{sig['name']}"] + bs + [f"(mkS {g} 0 0 [])"] + argtx)
+            inner = f"let '({w1}, {iv}) := py_alloc {e2.store} {o} in\n" + k(V("Ref", iv), e3)
+            return (f"let '({o}, {r1}) := {callt} in\n"
+                    f"match {r1} with\n| {mod}.Exc {kk} => " + self.raise_(e, e2, f"(py_exn_of_mt {kk})") + "\n"
+                    f"| {mod}.Ret _ =>\n{ind(inner)}\nend")
+        return self.exprs(e.args, env, with_args)
+
+    def super_init(self, e, env, k):
+        """super().__init__(args) in a class whose base is translated (frame wself)"""
+        spec = CLASSES[self.ctx.cls]
+        sup = spec.get("super")
+        if not sup or self.ctx.name != "__init__":
+            self.fail(e, "super() call (only super().__init__(..) of a translated base class, inside __init__)")
+        if self.ctx.loop:
+            self.fail(e, "super() call inside a loop body")
+        self.effect(e, "super().__init__")
+        sig = self.method(sup[0], "__init__", e)
+        if len(e.args) != len(sig["params"]):
+            self.fail(e, f"super().__init__ called with {len(e.args)} arguments, it has {len(sig['params'])} parameters")
+
+        def with_args(args, e2):
+            argtx = []
+            for (pn, ty), v in zip(sig["params"], args):
+                if ty == v.ty and v.tx is not None and v.tx.startswith("p_"):
+                    argtx.append(v.tx)
+                else:
+                    self.fail(e, f"argument of kind {v.ty} passed for the parameter `{pn}` of kind {ty}")
+            for b, t in sig["binders"]:
+                self.ctx.need(b, t)
+            w1, b1, r1, kk = (self.ctx.fresh(x) for x in ("w", "b", "r", "k"))
+            e3 = e2.clone()
+            e3.store, e3.sup, e3.dirty = w1, b1, True
+            callt = " ".join([sig["name"]] + [b for b, _t in sig["binders"]] + [e2.store, e2.sup] + argtx)
+            return (f"let '(({w1}, {b1}), {r1}) := {callt} in\n"
+                    f"match {r1} with\n| Exc {kk} => {self.raise_(e, e3, kk)}\n| Ret _ =>\n{ind(k(V('None', 'tt'), e3))}\nend")
+        return self.exprs(e.args, env, with_args)
+
     def builtin(self, e, name, env, k):
         n = len(e.args)
+        if name in CLASSES and name != "Random":
+            return self.construct(e, name, env, k)
         if name == "Random":
             if self.imports.get("Random") != "random.Random":
                 self.fail(e, "`Random` is not imported from random")
@@ -1395,8 +1592,7 @@ def translate(text: str, keep_going: bool = False):
     tr = Translator(text)
     failures = []
     for cname, spec in CLASSES.items():
-        mod = spec["module"]
-        snap = (len(tr.defs[mod]), dict(tr.sigs), len(tr.translated))
+        snap = ({m: len(d) for m, d in tr.defs.items()}, dict(tr.sigs), len(tr.translated))
         try:
             tr.class_checks(cname)
             for m in spec["methods"]:
@@ -1404,7 +1600,8 @@ def translate(text: str, keep_going: bool = False):
         except Unsupported as exc:
             if not keep_going:
                 raise
-            del tr.defs[mod][snap[0]:]
+            for m, n in snap[0].items():
+                del tr.defs[m][n:]
             tr.sigs = snap[1]
             del tr.translated[snap[2]:]
             failures.append({"class": cname, "line": exc.lineno, "construct": exc.what, "error": str(exc)})
@@ -1414,14 +1611,14 @@ def translate(text: str, keep_going: bool = False):
 def render(tr: Translator, src_sha: str) -> str:
     out = [f"(* GENERATED by translator/py2gallina_streams.py from src/pydsol/core/streams.py -- do not edit.",
            f"   sha1 of the source file (line ends normalised): {src_sha}",
-           "   Shallow embedding of the method bodies over the types of Streams/Stream.v (module MT) and",
-           "   Streams/Seeds.v (module Upd); see the translator for the subset and its meaning.",
+           "   Shallow embedding of the method bodies over the types of Streams/Stream.v (module MT),",
+           "   Streams/Seeds.v (module Upd) and Streams/Info.v (module Inf); see the translator for the subset and its meaning.",
            "   Streams/GenAgree.v proves every definition equal to the hand-written model. *)",
            "From Coq Require Import ZArith List Bool.",
-           "From PV Require Streams.Stream Streams.Seeds.",
+           "From PV Require Streams.Stream Streams.Seeds Streams.Info.",
            "Import ListNotations.",
            ""]
-    for mod in ("MT", "Upd"):
+    for mod in MODULE_ORDER:
         out += [f"Module {mod}.", f"Import {MODULES[mod]}.", "Local Open Scope Z_scope.", PRELUDE[mod]]
         for d in tr.defs[mod]:
             out.append(d)
